@@ -6,6 +6,7 @@
   shape, every `spaces` value and all data in any field `K` (the driver runs `K = CRat`, exact complex rationals).
 -/
 import NiftyVerif.Lemmas.Field
+import Mathlib.Data.Complex.Basic
 
 namespace NiftyVerif.C06
 open NiftyVerif.FieldM
@@ -278,6 +279,17 @@ theorem vdot_conj_linear [CommRing K] (conj : K →+* K) (hinv : ∀ a, conj (co
     simp only [map_mul, hinv]
     ring
 
+-- non-vacuity: complex conjugation on ℂ is such an involution, so the laws hold for all complex fields
+example (x y z : Fld ℂ) (a : ℂ) (hy : y.dom = x.dom) (hz : z.dom = x.dom) (hys : y.subs = x.subs)
+    (hzs : z.subs = x.subs) :=
+  vdot_conj_linear (starRingEnd ℂ) Complex.conj_conj x y z a hy hz hys hzs
+
+-- non-vacuity (partial dot product): 2×2 field x = [[1,2],[3,4]] with itself over the first sub-domain -> [10, 20]
+example :
+    let f : Fld Rat := ⟨0, [⟨[2], .none, none⟩, ⟨[2], .none, none⟩], 2, fun i => (2 * i.headD 0 + i.tail.headD 0 + 1 : Nat)⟩
+    (match vdot id f f (.scalar 0) with | .ok r => [r.val [0], r.val [1]] | .error _ => []) = [10, 20] ∧
+    (match vdot id f f .none with | .ok r => r.val [] | .error _ => 0) = 30 := by decide +kernel
+
 /-- total_volume(spaces) is the product of the sub-domain volumes of the listed sub-domains, and for the whole
     domain (StructuredDomain formula, every sub-domain has volume factors) this product equals the sum over ALL
     multi-indices of the product of the volume factors — the integral of the constant field 1. -/
@@ -324,6 +336,56 @@ example :
     let subs : List (SubDom Rat) := [⟨[2], .scalar (1/2), none⟩, ⟨[2], .vector #[1/2, 2], none⟩]
     (match totalVolume subs .none with | .ok v => v | .error _ => 0) = 5/2 ∧
     sumOver (allIdx (subs.map SubDom.size)) (fun idx => prodOver (List.range 2) (fun k => dvolAt subs k idx)) = 5/2 := by
+  decide +kernel
+
+/-- MultiField binary operations are key-wise: after the identity check of the two MultiDomains, leaf `k` of the
+    result is the Field operation applied to the leaves `k` of the operands (keys kept, in order); with a scalar
+    operand / for unary operations every leaf is transformed on its own. -/
+theorem multifield_op_keywise (op : Fld K → Fld K → Except String (Fld K)) (a b r : MFld K)
+    (h : mbinop op a b = .ok r) :
+    a.dom = b.dom ∧ r.dom = a.dom ∧
+    List.Forall₂ (fun (ab : (String × Fld K) × (String × Fld K)) (c : String × Fld K) =>
+      c.1 = ab.1.1 ∧ op ab.1.2 ab.2.2 = .ok c.2) (a.leaves.zip b.leaves) r.leaves ∧
+    (∀ u : Fld K → Fld K, (mmap u a).leaves = a.leaves.map (fun kv => (kv.1, u kv.2))) := by
+  unfold mbinop at h
+  by_cases hd : a.dom = b.dom
+  · simp only [hd, ne_eq, not_true_eq_false, if_false] at h
+    cases hz : zipLeaves op a.leaves b.leaves with
+    | error e => simp only [hz] at h; cases h
+    | ok l =>
+      simp only [hz, Except.ok.injEq] at h
+      subst h
+      exact ⟨hd, hd.symm, zipLeaves_spec op _ _ _ hz, fun _ => rfl⟩
+  · simp only [ne_eq, hd, not_false_eq_true, if_true] at h
+    cases h
+
+example :
+    let f : Fld Rat := ⟨0, [], 2, fun _ => 3⟩
+    let a : MFld Rat := ⟨7, [("a", f), ("b", f)]⟩
+    (match mbinop (binop (· + ·) max) a a with | .ok r => r.leaves.map (fun kv => (kv.1, kv.2.val [])) | .error _ => [])
+      = [("a", 6), ("b", 6)] := by decide +kernel
+
+/-- MultiField.norm combines the leaf norms correctly: for p = 1 the sum of the leaf 1-norms is the 1-norm of the
+    concatenated entries; for p = ∞ the maximum of the leaf maxima is the maximum over all entries; for p = 2,
+    whatever non-negative numbers `nrm k` the leaf 2-norms are (`nrm k ² = Σ |leaf k|²`), a number `r` with
+    `r² = Σ_k (nrm k)²` — NIFTy's `(nrm**2).sum()**(1/2)` — satisfies `r² = Σ |all entries|²`. -/
+theorem multifield_norm [Field K] [LinearOrder K] (ab nsq : K → K) (a : MFld K) :
+    mnorm1 ab a = sumOver (mentries a) ab ∧
+    mnormInf max ab a = maxOver max (mentries a) ab ∧
+    (∀ (nrm : String × Fld K → K) (r : K), (∀ kv ∈ a.leaves, nrm kv ^ 2 = norm2Sq nsq kv.2) →
+      r ^ 2 = sumOver a.leaves (fun kv => nrm kv ^ 2) → r ^ 2 = sumOver (mentries a) nsq) := by
+  refine ⟨?_, ?_, ?_⟩
+  · simp only [mnorm1, norm1, mentries, sumOver_flatMap, sumOver_map]
+  · simp only [mnormInf, normInf, mentries, maxOver_flatMap, maxOver_map]
+  · intro nrm r hn hr
+    rw [hr, sumOver_congr hn]
+    simp only [norm2Sq, mentries, sumOver_flatMap, sumOver_map]
+
+example :
+    let f : Fld Rat := ⟨0, [⟨[2], .none, none⟩], 2, fun i => if i.headD 0 = 0 then 3 else -4⟩
+    let a : MFld Rat := ⟨7, [("a", f), ("b", f)]⟩
+    (mnorm1 (fun z => if z < 0 then -z else z) a, mnorm2Sq (fun z => z * z) a,
+     mnormInf (fun x y => if x < y then y else x) (fun z => if z < 0 then -z else z) a) = (14, 50, 4) := by
   decide +kernel
 
 end NiftyVerif.C06
